@@ -20,6 +20,28 @@ CONFIG = """
 """
 
 
+def boundary_model():
+    """Ratios sitting exactly on 1, 2, 30 and just around them, so that thresholds that differ by a hair select
+    different rows: parents 300 (30.0), path depth 10 (1.0), gitlinks 3000 (30.0), tree entries 2000 (2.0),
+    path length 100 (1.0), tag chain 30 (29.97)."""
+    blob = G.Blob(b"x")
+    deep = G.Tree([G.Entry(G.FILE, b"f" * 82, blob)])           # 9 dirs "dd" + '/' ... -> total path length 100
+    for _ in range(9):
+        deep = G.Tree([G.Entry(G.TREE, b"d", deep)])
+    subs = G.Tree([G.Entry(G.GITLINK, b"m%05d" % j, "%040x" % (j + 1)) for j in range(3000)])
+    wide = G.Tree([G.Entry(G.FILE, b"w%05d" % j, blob) for j in range(2000)])
+    top = G.Tree([G.Entry(G.TREE, b"p", deep), G.Entry(G.TREE, b"subs", subs), G.Entry(G.TREE, b"wide", wide)])
+    parents = [G.Commit(top, [], cts=100 + j, msg=b"p%d\n" % j) for j in range(300)]
+    head = G.Commit(top, parents, cts=5000)
+    m = G.Model()
+    m.refs["refs/heads/main"] = head
+    tg = head
+    for j in range(30):
+        tg = G.Tag(tg, name=b"t%d" % j)
+    m.refs["refs/tags/chain"] = tg
+    return m
+
+
 def cfg_env(scope, key, val, d, tag):
     """Returns (env, cleanup_fn). scope: command | global | local(handled by caller)"""
     if scope == "command":
@@ -39,7 +61,7 @@ def pairs_for(rng, refs):
     """Yield (family, description, (cfgA, argvA), (cfgB, argvB), expect) where cfg = None or (key, value);
     expect: 'same' (stdout + exit status identical), 'same-ok' (additionally exit 0), 'A-fails'."""
     out = []
-    ths = ["0", "1", "30", "0.5", "2", "7.5", "29", "31", "1e3", "-1"]
+    ths = ["0", "1", "30", "0.5", "2", "7.5", "29", "31", "1e3", "-1", "1.0000001", "30.0000001", "29.9999999", "0.9999999"]
     for v in ths:
         out.append(("threshold", "config=option", (("sizer.threshold", v), []), (None, ["--threshold=" + v]), "same-ok"))
     for v1, v2 in [("0", "30"), ("30", "0"), ("2", "1"), ("abc", "1"), ("", "3")]:
@@ -186,11 +208,11 @@ def run(chk, b, tier):
     scratch = b.scratchdir()
     d = os.path.join(scratch, "c14")
     os.makedirs(d)
-    nrepos = 1 if tier == "quick" else 6
+    nrepos = 2 if tier == "quick" else 6
     jobs = []
     jid = 0
     for ri in range(nrepos):
-        m = concerning_model(random.Random("C14m|%d|%d" % (R.SEED, ri)))
+        m = boundary_model() if ri == 0 else concerning_model(random.Random("C14m|%d|%d" % (R.SEED, ri)))
         m.config = CONFIG
         c = m.refs["refs/heads/main"]
         m.refs["refs/heads/x"] = c.parents[0] if c.parents else c
@@ -211,7 +233,7 @@ def run(chk, b, tier):
                 jid += 1
         if ri == 0:
             progress_pairs(chk, sz, gitdir, d)
-    res = R.pmap(pair_job, jobs, chunksize=4)
+    jobs, res = R.pmap(pair_job, jobs, chunksize=4, chk=chk, with_items=True)
     fams = {}
     for job, (viol, nruns) in zip(jobs, res):
         chk.count(nruns)
